@@ -199,7 +199,7 @@ class DisambiguateChoices(RelativeHandlerInterface):
             name = self.next_available_name(source, name)
 
         return Class(
-            qname=build_qname(choice.namespace, name),
+            qname=build_qname(source.target_namespace, name),
             status=Status.RAW,
             tag=Tag.ELEMENT,
             local_type=True,
